@@ -371,6 +371,9 @@ func BuildConfig(p *Plan) *config.Config {
 	}
 	cfg.Translators.Anthropic.Enabled = sc.Anthropic
 	cfg.Translators.Anthropic.PassthroughEnabled = sc.Passthrough
+	if sc.MaxMessageSize < 0 {
+		cfg.Translators.Anthropic.MaxMessageSize = 0 // the legal "use the default" value, written out
+	}
 	if sc.MaxMessageSize > 0 {
 		cfg.Translators.Anthropic.MaxMessageSize = sc.MaxMessageSize
 	}
